@@ -116,9 +116,10 @@ class ConcHarness:
        options: pt=<pool timeout>, v (may be cancelled), late (arrives by an environment event)"""
 
     def __init__(self, ct, callers, max_connections=1, max_keepalive=None, faults=0, cancels=0, styles=("scope",),
-                 early=True, framing="cl", h2cfg=None, horizon=600, keepalive_expiry=None, fault_set="one", h2script=None, probe=True):
+                 early=True, framing="cl", h2cfg=None, horizon=600, keepalive_expiry=None, fault_set="one", h2script=None, probe=True, tick=0):
         self.h2script = h2script
         self.probe = probe
+        self.tick = tick            # virtual seconds that pass between the warm-up callers and the others
         self.ct = ct
         self.callers = callers
         self.max_connections = max_connections
@@ -274,6 +275,8 @@ class ConcHarness:
                 else:
                     topo.h2cfg["respond"] = saved_resp
                 w.env.faults, w.cancels, w.server_events = f0, c0_, se
+                if self.tick:
+                    w.loop.advance(self.tick)
             w.run()
             post = {}
             if w.deadlock is None:
@@ -284,6 +287,15 @@ class ConcHarness:
 
                 async def probe():
                     held, res = [], []
+                    if self.probe:
+                        # a later request to every origin the callers used must still be served (a leaked per-connection
+                        # resource, e.g. an HTTP/2 stream slot, only hurts requests to the same origin)
+                        for og in sorted({cs.split(":")[1] for cs in self.callers}):
+                            try:
+                                r0 = await pool.request("GET", scen.url_for(ct, host=f"{og}.example", token=f"again{og}"), extensions={"timeout": {"pool": 0}})
+                                res.append(("ok", r0.status) if r0.content == b"<again" + og.encode() + b">" else ("exc", RuntimeError(f"wrong body {r0.content!r}")))
+                            except Exception as e:
+                                res.append(("exc", e))
                     try:
                         for i in range(N if self.probe else 0):
                             cm = pool.stream("GET", scen.url_for(ct, host=f"p{i}.example", token=f"probe{i}"), extensions={"timeout": {"pool": 0}})
@@ -420,6 +432,8 @@ class ConcHarness:
                 return
             viol("C07", kind, f"callers blocked forever: {info}; pool={pool!r} {pool.connections}",
                  blocked_at=[b[1] for b in info] if isinstance(info, list) else None)
+            if (canc or inj) and kind == "deadlock":
+                viol("C05", "others-blocked", f"after the failed/cancelled request other callers are blocked forever: {info}; pool={pool!r} {pool.connections}")
             ex.outcome = f"{kind}:{sorted((k, (v[0] if v else None)) for k, v in results.items())}"
             return
         for hc in topo.all_h2_conns():
@@ -555,7 +569,14 @@ def scenarios(pid, tier):
                 if not quick:
                     out.append(S(ct, ["req:a:w", "req:a", "req:a", "req:a"], max_connections=1, h2script={"frag": 1}, early=False))
                     out.append(S(ct, ["req:a:w", "early:a", "req:a"], max_connections=1, h2script={"frag": 2}, early=False))
+        if pid in ("C04", "C07"):
+            out.append(S("socks-h2", ["req:a", "req:a"], max_connections=1, early=False))
+            out.append(S("socks-h2", ["req:a", "req:a", "req:b"], max_connections=1, early=False))
         if pid == "C07":
+            # a request the busy HTTP/2 connection could multiplex, queued behind one that cannot be served
+            for ct in ["h2alpn", "h2pk"]:
+                out.append(S(ct, ["hold:a", "req:b", "req:a"], max_connections=1, early=False))
+                out.append(S(ct, ["req:a:w", "hold:a", "req:b", "req:a"], max_connections=1, early=True))
             out.append(S("h11", ["hold:a", "req:b:pt=5", "req:b"], max_connections=1))
             out.append(S("h2exp11", ["req:a", "req:a", "req:a"], max_connections=2))
     if pid in ("C05", "C06"):
@@ -566,6 +587,9 @@ def scenarios(pid, tier):
             if scen.CONN_TYPES[ct]["http2"]:
                 out.append(S(ct, ["req:a:v", "req:a"], max_connections=1, cancels=1, styles=["scope", "native"]))
             out.append(S(ct, ["post:a", "req:b"], max_connections=1, faults=1, fault_set="all" if not quick else "one"))
+            # history: idle connections that expire together are retired in one pass while the victim is cancelled
+            out.append(S(ct, ["req:a:w", "req:b:w", "req:c:v"], max_connections=3, keepalive_expiry=5.0, tick=6.0, cancels=1, styles=["scope", "native"]))
+            out.append(S(ct, ["req:a:w", "req:b"], max_connections=2, keepalive_expiry=5.0, tick=6.0))
             if not quick:
                 out.append(S(ct, ["early:a:v", "req:a"], max_connections=1, cancels=1, styles=["scope", "native"]))
                 out.append(S(ct, ["hold:a:v", "req:b"], max_connections=1, cancels=1, styles=["scope", "native"]))
